@@ -95,9 +95,17 @@ func (f *frame) enterLoop(li *loopInfo, b *ssa.BasicBlock, pc *Term, st State) (
 		c.havocAll(st)
 	}
 	for _, h := range ms.list() {
+		if strings.HasPrefix(h, "ghost$") {
+			continue // ghost state: decided by ghostsWrittenIn below
+		}
 		c.havocHeapLoop(st, h)
 	}
 	ghostsInLoop := f.ghostsWrittenIn(li)
+	for g := range ghostsInLoop {
+		if _, inState := st["ghost$"+g]; !inState {
+			c.havocHeapLoop(st, "ghost$"+g)
+		}
+	}
 	for _, k := range sortedKeys(st) {
 		if strings.HasPrefix(k, "$visited$") && !strings.HasSuffix(k, "$dom0") {
 			// only the visited set of a range that lives inside this loop
